@@ -1,0 +1,47 @@
+/* This file is Copyright 2000-2022 Meyer Sound Laboratories Inc.  See the included LICENSE.txt file for details. */
+
+#ifndef MuscleVerifSimHooks_h
+#define MuscleVerifSimHooks_h
+
+// This header is only ever included when -DMUSCLE_VERIF_HOOKS is defined.  It declares a table of
+// function pointers through which an external deterministic simulator can take over the
+// sources of nondeterminism that have no other seam (who runs next at a lock/wait/atomic
+// operation, thread birth/death/join, and the insecure PRNG).  When (g_muscleVerifSim) is
+// NULL (the default) every hook is a no-op and the library behaves exactly as it does
+// without -DMUSCLE_VERIF_HOOKS.
+
+#ifdef MUSCLE_VERIF_HOOKS
+
+#include <stdint.h>
+
+enum {
+   MUSCLE_VERIF_YIELD_ATOMIC_INC = 0,  // about to AtomicIncrement() an AtomicCounter
+   MUSCLE_VERIF_YIELD_ATOMIC_DEC,      // about to AtomicDecrement() an AtomicCounter
+   MUSCLE_VERIF_YIELD_ATOMIC_GET,      // about to read an AtomicCounter
+   MUSCLE_VERIF_YIELD_ATOMIC_SET,      // about to set an AtomicCounter
+   MUSCLE_VERIF_YIELD_PRENOTIFY,       // about to Notify() a WaitCondition
+   MUSCLE_VERIF_YIELD_USER,            // harness-inserted yield point
+   NUM_MUSCLE_VERIF_YIELDS
+};
+
+struct MuscleVerifSimHooks
+{
+   void (*mutexLock)(const void * mutex);                 // called before the real lock is taken; returns when the simulator grants the mutex
+   bool (*mutexTryLock)(const void * mutex);              // returns false if the simulated mutex is held by another thread
+   void (*mutexUnlock)(const void * mutex);               // called after the real lock has been released
+   bool (*condWait)(const void * cond, const volatile uint32_t * pendingCount, uint64_t wakeupTime);  // returns false iff the wait timed out
+   void (*condNotify)(const void * cond);                 // called after the pending-notifications count was increased
+   void (*yield)(int kind, const void * obj);             // a possible preemption point
+   void (*threadCreated)(const void * threadObj);         // called by the parent right after the std::thread was constructed
+   void (*threadBegin)(const void * threadObj);           // called first thing in the new thread
+   void (*threadEnd)(const void * threadObj);             // called last thing in the exiting thread
+   void (*threadJoin)(const void * threadObj);            // called by the joiner just before the real join()
+   bool (*random32)(uint32_t * retVal);                   // returns true iff it supplied a value
+   bool (*random64)(uint64_t * retVal);                   // returns true iff it supplied a value
+};
+
+extern MuscleVerifSimHooks * g_muscleVerifSim;  // defined in SetupSystem.cpp; NULL means "no simulator installed"
+
+#endif
+
+#endif
